@@ -1126,7 +1126,7 @@ func (c *gctx) execFailingPick(roundRobin bool) built {
 		func() built {
 			return mk("gov/bad-module", c.plain(), func(n uint64, f *transaction.Fee) *transaction.Transaction {
 				return governance.NewSubmitProposalTx(n, f, &governance.ProposalContent{
-					Metadata:         &governance.ProposalMetadata{Title: "x"},
+					Metadata:         &governance.ProposalMetadata{Title: "verif failing proposal"},
 					ChangeParameters: &governance.ChangeParametersProposal{Module: "nomodule", Changes: cbor.Marshal(map[string]int{"a": 1})},
 				})
 			})
@@ -1134,7 +1134,7 @@ func (c *gctx) execFailingPick(roundRobin bool) built {
 		func() built {
 			return mk("gov/bad-changes", c.plain(), func(n uint64, f *transaction.Fee) *transaction.Transaction {
 				return governance.NewSubmitProposalTx(n, f, &governance.ProposalContent{
-					Metadata:         &governance.ProposalMetadata{Title: "x"},
+					Metadata:         &governance.ProposalMetadata{Title: "verif failing proposal"},
 					ChangeParameters: &governance.ChangeParametersProposal{Module: staking.ModuleName, Changes: cbor.Marshal(map[string]int{"no_such_parameter": 1})},
 				})
 			})
@@ -1142,7 +1142,7 @@ func (c *gctx) execFailingPick(roundRobin bool) built {
 		func() built {
 			return mk("gov/upgrade-too-soon", c.plain(), func(n uint64, f *transaction.Fee) *transaction.Transaction {
 				return governance.NewSubmitProposalTx(n, f, &governance.ProposalContent{
-					Metadata: &governance.ProposalMetadata{Title: "x"},
+					Metadata: &governance.ProposalMetadata{Title: "verif failing proposal"},
 					Upgrade: &governance.UpgradeProposal{Descriptor: upgrade.Descriptor{
 						Versioned: cbor.NewVersioned(upgrade.LatestDescriptorVersion), Handler: "verif-handler",
 						Target: version.Versions, Epoch: beacon.EpochTime(1 + r.Intn(2))}},
@@ -1501,6 +1501,49 @@ func (c *gctx) execFailingPick(roundRobin bool) built {
 	}
 	for k := 0; k < 4; k++ {
 		gens = append(gens, evidGen(k))
+	}
+	rtRejectGen := func(kind int) gen {
+		return func() built {
+			// RegisterRuntime that passes every registry and stake check and is REJECTED BY A SUBSCRIBER of
+			// the registry's notifications: roothash VerifyRuntimeParameters (roothash/api/api.go:660-668)
+			// refuses Executor.MaxMessages > MaxRuntimeMessages and MaxInMessages > MaxInRuntimeMessages.
+			// Both for a new runtime and for an update of the registered one.
+			label := []string{"new-max-messages", "new-max-in-messages", "update-max-messages", "update-max-in-messages"}[kind]
+			return inTx(mk("registry/runtime-rejected-by-roothash-"+label, v[0].Entity, func(n uint64, f *transaction.Fee) *transaction.Transaction {
+				id := s.rt3()
+				if kind >= 2 {
+					id = s.rt1
+				}
+				d := s.runtimeDesc(id, v[0].Entity.Public())
+				if kind%2 == 0 {
+					d.Executor.MaxMessages = s.g.Doc.RootHash.Parameters.MaxRuntimeMessages + 1 + uint32(r.Intn(5))
+				} else {
+					d.TxnScheduler.MaxInMessages = s.g.Doc.RootHash.Parameters.MaxInRuntimeMessages + 1 + uint32(r.Intn(5))
+				}
+				f.Gas = 4 * muxdrv.DefaultGas
+				return registry.NewRegisterRuntimeTx(n, f, d)
+			}))
+		}
+	}
+	govRejectGen := func(mi int) gen {
+		return func() built {
+			// a change-parameters proposal REJECTED BY THE SUBSCRIBER module of
+			// governance MessageValidateParameterChanges (one class per subscribing module)
+			mods := []string{registry.ModuleName, roothash.ModuleName, scheduler.ModuleName, vault.ModuleName, governance.ModuleName, staking.ModuleName}
+			mod := mods[mi%len(mods)]
+			return mk("gov/changes-rejected-by-"+mod, c.plain(), func(n uint64, f *transaction.Fee) *transaction.Transaction {
+				return governance.NewSubmitProposalTx(n, f, &governance.ProposalContent{
+					Metadata:         &governance.ProposalMetadata{Title: "verif failing proposal"},
+					ChangeParameters: &governance.ChangeParametersProposal{Module: mod, Changes: cbor.Marshal(map[string]int{"no_such_parameter": 1})},
+				})
+			})
+		}
+	}
+	for k := 0; k < 4; k++ {
+		gens = append(gens, rtRejectGen(k))
+	}
+	for k := 0; k < 6; k++ {
+		gens = append(gens, govRejectGen(k))
 	}
 	// Only in histories with MinTransactBalance > 0: the balance left behind is below the minimum
 	// (checked by the handlers AFTER the in-memory move, before the writes).
@@ -1861,7 +1904,7 @@ func main() {
 	bursts := flag.Int("bursts", 1, "CheckTx/EstimateGas bursts per scenario")
 	replay := flag.String("replay", "", "replay a case description")
 	verbose := flag.Bool("v", false, "")
-	sweepPct := flag.Int("sweep", 10, "percentage of cases whose gas limit is swept over every charging point")
+	sweepPct := flag.Int("sweep", 6, "percentage of cases whose gas limit is swept over every charging point")
 	probe := flag.Bool("probe", false, "print the setup results of one history and exit")
 	flag.Parse()
 	if *probe {
